@@ -5,13 +5,19 @@ using namespace img;
 
 // ---------------------------------------------------------------- accessor callbacks with address logging
 static const uint8_t *g_lo[4], *g_hi[4];
+static uint32_t g_key[4];  // per storage range: every byte is kept XORed with this value; the callbacks translate
 static int g_nranges = 0;
 static long g_acc_calls = 0, g_acc_bad = 0;
-static bool in_ranges(const void *p, int size) {
+static int find_range(const void *p, int size) {
   const uint8_t *q = (const uint8_t *)p;
   for (int i = 0; i < g_nranges; i++)
-    if (q >= g_lo[i] && q + size <= g_hi[i]) return true;
-  return false;
+    if (q >= g_lo[i] && q + size <= g_hi[i]) return i;
+  return -1;
+}
+static bool in_ranges(const void *p, int size) { return find_range(p, size) >= 0; }
+static uint32_t key_of(const void *p, int size) {
+  int i = find_range(p, size);
+  return i < 0 ? 0 : g_key[i] * 0x01010101u;
 }
 static uint32_t acc_read(const void *src, int size) {
   g_acc_calls++;
@@ -19,10 +25,11 @@ static uint32_t acc_read(const void *src, int size) {
     g_acc_bad++;
     return 0;
   }
+  uint32_t k = key_of(src, size);
   switch (size) {
-  case 1: return *(const uint8_t *)src;
-  case 2: return *(const uint16_t *)src;
-  case 4: return *(const uint32_t *)src;
+  case 1: return (uint8_t)(*(const uint8_t *)src ^ k);
+  case 2: return (uint16_t)(*(const uint16_t *)src ^ k);
+  case 4: return *(const uint32_t *)src ^ k;
   }
   g_acc_bad++;
   return 0;
@@ -33,6 +40,7 @@ static void acc_write(void *dst, uint32_t value, int size) {
     g_acc_bad++;
     return;
   }
+  value ^= key_of(dst, size);
   switch (size) {
   case 1: *(uint8_t *)dst = (uint8_t)value; break;
   case 2: *(uint16_t *)dst = (uint16_t)value; break;
@@ -46,6 +54,7 @@ static void acc_reset(std::initializer_list<const Image *> imgs) {
   for (auto *i : imgs) {
     g_lo[g_nranges] = i->buf.p;
     g_hi[g_nranges] = i->buf.p + i->buf.size;
+    g_key[g_nranges] = 0;
     g_nranges++;
   }
 }
@@ -133,8 +142,8 @@ static Verdict run_exh(const ExhCase &c) {
     dd.seed = 7;
     auto dst = make_image(dd);
     acc_reset({src.get(), dst.get()});
-    if (c.acc & 1) pixman_image_set_accessors(src->im, acc_read, acc_write);
-    if (c.acc & 2) pixman_image_set_accessors(dst->im, acc_read, acc_write);
+    if ((c.acc & 1) && bpp(src->d.code()) <= 32) pixman_image_set_accessors(src->im, acc_read, acc_write);
+    if ((c.acc & 2) && bpp(dst->d.code()) <= 32) pixman_image_set_accessors(dst->im, acc_read, acc_write);
     pixman_image_composite32(PIXMAN_OP_SRC, src->im, nullptr, dst->im, 0, 0, 0, 0, c.dx, 0, W, H);
     for (int i = 0; i < n && v.ok; i++) {
       uint32_t got = raw_get(dst->rowp(i / W), 32, i % W + c.dx), want = expected_decode(*src, i % W, i / W);
@@ -163,7 +172,7 @@ static Verdict run_exh(const ExhCase &c) {
       bd.seed = 99;
       auto back = make_image(bd);
       acc_reset({back.get(), dst.get()});
-      if (c.acc & 1) pixman_image_set_accessors(back->im, acc_read, acc_write);
+      if ((c.acc & 1) && bpp(back->d.code()) <= 32) pixman_image_set_accessors(back->im, acc_read, acc_write);
       pixman_image_composite32(PIXMAN_OP_SRC, dst->im, nullptr, back->im, c.dx, 0, 0, 0, 0, 0, W, H);
       uint32_t dm = defined_mask(f);
       for (int i = 0; i < n && v.ok; i++) {
@@ -184,7 +193,7 @@ static Verdict run_exh(const ExhCase &c) {
     dd.fill = FILL_ZERO;
     auto dst = make_image(dd);
     acc_reset({src.get(), dst.get()});
-    if (c.acc & 1) pixman_image_set_accessors(src->im, acc_read, acc_write);
+    if ((c.acc & 1) && bpp(src->d.code()) <= 32) pixman_image_set_accessors(src->im, acc_read, acc_write);
     pixman_image_composite32(PIXMAN_OP_SRC, src->im, nullptr, dst->im, 0, 0, 0, 0, 0, 0, W, H);
     long double tol = is_srgb(f) ? 2e-5L : 1.0L / 1048576.0L;
     for (int i = 0; i < n && v.ok; i++) {
@@ -266,7 +275,7 @@ static CodecCase gen_codec() {
   c.sy = (int)R(0, c.src.h - c.h);
   c.dx = (int)R(0, c.dst.w - c.w);
   c.dy = (int)R(0, c.dst.h - c.h);
-  c.acc = (int)R(1, 3);
+  c.acc = (int)R(1, 3) | (coin(35) ? 4 : 0) | (coin(50) ? 8 : 0);  // +4: read callback only on the source; +8: translating callbacks
   c.op = coin(70) ? PIXMAN_OP_SRC : (int)pick<int>({PIXMAN_OP_OVER, PIXMAN_OP_ADD, PIXMAN_OP_IN, PIXMAN_OP_XOR});
   return c;
 }
@@ -370,10 +379,31 @@ static Verdict run_codec(const CodecCase &c) {
     return v;
   }
   acc_reset({src2.get(), d2.get()});
-  if (c.acc & 1) pixman_image_set_accessors(src2->im, acc_read, acc_write);
-  if (c.acc & 2) pixman_image_set_accessors(d2->im, acc_read, acc_write);
+  // a read-only source needs no write callback ("+4"); callbacks may translate what is stored ("+8": the storage holds every
+  // byte XORed with a key and only the callbacks know it), so a reader or writer that bypasses them sees garbage.  Float
+  // and YUV formats address memory directly by design (labelled below), so their storage is never scrambled.
+  bool scr_src = (c.acc & 8) && (c.acc & 1) && !is_float(sf) && !is_yuv(sf);
+  bool scr_dst = (c.acc & 8) && (c.acc & 2) && !is_float(df);
+  auto scramble = [](Image &im, uint32_t key) {
+    for (size_t i = 0; i < im.buf.size; i++) im.buf.p[i] ^= (uint8_t)key;
+  };
+  if (scr_src) {
+    g_key[0] = 0xa5;
+    scramble(*src2, 0xa5);
+  }
+  if (scr_dst) {
+    g_key[1] = 0x3c;
+    scramble(*d2, 0x3c);
+  }
+  // (pixman_image_set_accessors documents that accessors only work for <= 32 bpp: not installed on float images)
+  if ((c.acc & 1) && bpp(sf) <= 32) pixman_image_set_accessors(src2->im, acc_read, (c.acc & 4) ? nullptr : acc_write);
+  if ((c.acc & 2) && bpp(df) <= 32) pixman_image_set_accessors(d2->im, acc_read, acc_write);
   pixman_image_composite32((pixman_op_t)c.op, src->im, nullptr, d1->im, c.sx, c.sy, 0, 0, c.dx, c.dy, c.w, c.h);
   pixman_image_composite32((pixman_op_t)c.op, src2->im, nullptr, d2->im, c.sx, c.sy, 0, 0, c.dx, c.dy, c.w, c.h);
+  if (scr_dst) scramble(*d2, 0x3c);
+  if (scr_src) v.label("translating_read_callback");
+  if (scr_dst) v.label("translating_write_callback");
+  if ((c.acc & 5) == 5) v.label("read_only_source_callback");
   // x8r8g8b8-style padding bits of affected pixels are undefined (DESIGN §0): compare defined bits inside, all bits outside
   int BPP = bpp(df);
   uint32_t dm = is_float(df) ? 0xffffffffu : defined_mask(df);
